@@ -397,3 +397,156 @@ Proof.
     destruct Hr' as (G & A1 & A2 & A3 & _). unfold with_bits in *. cbn [m_n m_msg m_hash] in *.
     repeat split; try apply G; auto. congruence.
 Qed.
+
+(* ------------------------------------------------------------------ HasSparseKeyID *)
+Lemma sim_has : forall rs ms r id, R rs ms -> sim rs ms (BHas r id).
+Proof.
+  intros rs ms r id H. unfold sim. cbn [step mon_step].
+  destruct (R_get rs ms r H) as [(p & m & E1 & E2 & Hr)|(E1 & E2)]; rewrite E1, E2;
+    [|cbn [fst snd]; rewrite obs_eqb_refl; eauto].
+  pose proof Hr as ((Hp & Hn) & An & Am & Ah & Ab). destruct Hp as [h Hinv]. pose proof Hinv as (Hwf & Hgen & _).
+  assert (Hnn : n_nodes (m_n m) = 2 * p2 h - 1) by (rewrite An; apply (n_nodes_wf h _ Hwf); lia).
+  unfold has_sparse_key_id.
+  destruct id as [|x [|y [|z l]]]; cbn [fst snd]; try (cbn; eauto; fail).
+  destruct (tree_get_spec h (p_tree p) (x * 256 + y) Hwf) as [(Hlt & k & s & Hk & Hs & Hg)|(Hge & Hg)]; rewrite Hg; cbn [negb fst snd].
+  - rewrite Hnn. replace (x * 256 + y <? 2 * p2 h - 1) with true by (symmetry; apply N.ltb_lt; exact Hlt).
+    destruct s as [sg|]; cbn [b2n]; [|cbn; eauto].
+    destruct (Hgen _ _ Hs) as (ks & Hk' & Hne & ->).
+    rewrite An, (leaves_under_idx h (p_tree p) _ Hwf ltac:(lia)) by (rewrite (n_nodes_wf h _ Hwf) by lia; exact Hlt).
+    unfold leaves_of. rewrite Hk'.
+    replace (mask_of ks =? 0) with false by (symmetry; apply N.eqb_neq; intro Z; apply mask_of_zero in Z; congruence).
+    rewrite Ab. rewrite is_superset_of.
+    2:{ intros i Hi. apply mask_of_spec in Hi. exact (set_node_bits _ h _ _ ks _ Hinv Hs Hk' i Hi). }
+    cbn. eauto.
+  - rewrite Hnn. replace (x * 256 + y <? 2 * p2 h - 1) with false by (symmetry; apply N.ltb_ge; exact Hge).
+    cbn. eauto.
+Qed.
+
+(* ------------------------------------------------------------------ AddSignature *)
+Lemma index_from_complete : forall keys k i idx, nthN keys idx = Some k -> index_from keys k i <> None.
+Proof.
+  induction keys as [|tk keys IH]; intros k i idx H.
+  - unfold nthN in H. destruct (N.to_nat idx); discriminate.
+  - cbn [index_from]. destruct (key_eqb tk k) eqn:E; [discriminate|].
+    unfold nthN in H. destruct (N.to_nat idx) as [|j] eqn:Ej.
+    + cbn in H. inversion H; subst. rewrite (proj2 (key_eqb_eq k k) eq_refl) in E. discriminate.
+    + cbn in H. apply (IH k (i + 1) (N.of_nat j)). unfold nthN. now rewrite Nat2N.id.
+Qed.
+
+Lemma key_sig_genuine_verify : forall msg k s, key_sig_genuine msg k s = verify k msg s.
+Proof. intros msg [[|x ks]|] [m l| |]; reflexivity. Qed.
+
+Lemma add_signature_code : forall p sg key p' code, pinv p -> add_signature p sg key = Ok (p', code) ->
+  (index_from (t_keys (p_tree p)) key 0 = None -> code = 1) /\
+  (index_from (t_keys (p_tree p)) key 0 <> None ->
+     (verify key (p_msg p) sg = true -> code = 0) /\ (verify key (p_msg p) sg = false -> code = 2 \/ code = 3)).
+Proof.
+  intros p sg key p' code [h Hinv] E. pose proof Hinv as (Hwf & Hgen & _). unfold add_signature, tree_index in E.
+  destruct (index_from (t_keys (p_tree p)) key 0) as [idx|] eqn:Ei.
+  2:{ inversion E; subst. split; [reflexivity|congruence]. }
+  split; [discriminate|]. intros _.
+  apply index_from_spec in Ei. destruct Ei as [_ Hk]. replace (idx - 0) with idx in Hk by lia.
+  pose proof (nthN_some_lt _ _ _ _ Hk) as Hlt. rewrite (wf_keys_len _ _ Hwf) in Hlt.
+  destruct (tree_get_spec h (p_tree p) idx Hwf) as [(_ & k & s & Hk2 & Hs & Hg)|(Hge & _)]; [|lia].
+  rewrite Hk in Hk2. inversion Hk2; subst k. clear Hk2. rewrite Hg in E.
+  destruct s as [hs|].
+  - destruct (Hgen _ _ Hs) as (ks & Hk' & Hne & ->). rewrite Hk in Hk'. inversion Hk'; subst key. clear Hk'.
+    destruct (decode sg) as [g|] eqn:Ed.
+    + assert (g = sg) by (destruct sg; cbn in Ed; congruence). subst g.
+      destruct (bsig_eqb sg (SAgg (p_msg p) ks)) eqn:Eq; inversion E; subst.
+      * split; [reflexivity|]. apply bsig_eqb_eq in Eq. subst sg. intro V.
+        rewrite (proj2 (verify_true _ _ _)) in V; [discriminate|]. exists ks. auto.
+      * split; [|auto]. intro V. apply verify_true in V. destruct V as (ks' & A & _ & B). inversion A; subst ks' sg.
+        rewrite (proj2 (bsig_eqb_eq _ _) eq_refl) in Eq. discriminate.
+    + inversion E; subst. split; [|auto]. intro V. destruct sg; cbn in Ed; try discriminate.
+      unfold verify in V. destruct ks; discriminate.
+  - destruct (verify key (p_msg p) sg) eqn:Ev; cbn [negb] in E.
+    + apply verify_true in Ev. destruct Ev as (ks & -> & Hne & ->). cbn [decode] in E.
+      destruct (tree_add_signature_spec (p_msg p) h (p_tree p) idx ks Hinv Hk Hne) as (t1 & A1 & _).
+      rewrite A1 in E. inversion E; subst. split; [reflexivity|discriminate].
+    + inversion E; subst. split; [discriminate|auto].
+Qed.
+
+Lemma found_b : forall keys k, (exists idx, nthN keys idx = Some k) <-> index_from keys k 0 <> None.
+Proof.
+  intros keys k. split.
+  - intros [idx H]. eapply index_from_complete; eauto.
+  - intro H. destruct (index_from keys k 0) as [idx|] eqn:E; [|congruence].
+    apply index_from_spec in E. destruct E as [_ E]. eauto.
+Qed.
+
+Lemma known_key_spec : forall h t key, wf_tree h t -> t_n t <= 65535 ->
+  known_key (t_n t) key = true <-> index_from (t_keys t) key 0 <> None.
+Proof.
+  intros h t key Hwf Hn. rewrite <- found_b. unfold known_key.
+  pose proof (wf_nw _ _ Hwf) as Hnw. pose proof (wf_n1 _ _ Hwf) as Hn1.
+  destruct key as [[|k0 ks]|].
+  - split; [discriminate|]. intros [idx H]. exfalso.
+    pose proof (nthN_some_lt _ _ _ _ H) as Hlt. rewrite (wf_keys_len _ _ Hwf) in Hlt.
+    destruct (node_exists h idx Hlt) as (d & off & Hd & Ho & ->).
+    rewrite (wf_keys _ _ Hwf d off Hd Ho) in H. inversion H as [H1].
+    apply (rkey_some_nonempty _ _ _ _ (p2_pos (h - d)) H1). reflexivity.
+  - rewrite existsb_exists. rewrite (n_nodes_wf h t Hwf Hn). split.
+    + intros (id & Hid & He). apply rangeN_In in Hid. apply listN_eqb_eq in He.
+      rewrite (leaves_under_idx h t id Hwf Hn) in He by (rewrite (n_nodes_wf h t Hwf Hn); lia).
+      exists id. unfold leaves_of in He. destruct (nthN (t_keys t) id) as [[kk|]|]; try discriminate. congruence.
+    + intros [idx H]. pose proof (nthN_some_lt _ _ _ _ H) as Hlt. rewrite (wf_keys_len _ _ Hwf) in Hlt.
+      exists idx. split; [apply rangeN_In; lia|]. apply listN_eqb_eq.
+      rewrite (leaves_under_idx h t idx Hwf Hn) by (rewrite (n_nodes_wf h t Hwf Hn); lia).
+      unfold leaves_of. now rewrite H.
+  - rewrite (pow2_ge_wf h t Hwf Hn). rewrite N.ltb_lt. split.
+    + intro L. exists (t_n t). pose proof (wf_keys _ _ Hwf h (t_n t) (le_n h) L) as K.
+      rewrite lstart_h in K. replace (0 + t_n t) with (t_n t) in K by lia. rewrite K. f_equal. unfold rkey. rewrite Nat.sub_diag. cbn [p2].
+      replace (t_n t * 1 <? t_n t) with false by (symmetry; apply N.ltb_ge; lia). reflexivity.
+    + intros [idx H]. pose proof (nthN_some_lt _ _ _ _ H) as Hlt. rewrite (wf_keys_len _ _ Hwf) in Hlt.
+      destruct (node_exists h idx Hlt) as (d & off & Hd & Ho & ->).
+      rewrite (wf_keys _ _ Hwf d off Hd Ho) in H. inversion H as [H1]. unfold rkey in H1.
+      destruct (off * p2 (h - d) <? t_n t) eqn:E; [discriminate|]. apply N.ltb_ge in E.
+      pose proof (p2_split h d Hd) as Hs. pose proof (p2_pos (h - d)).
+      assert ((off + 1) * p2 (h - d) <= p2 d * p2 (h - d)) by (apply N.mul_le_mono_r; lia). lia.
+Qed.
+
+Lemma sim_add : forall rs ms r s key, R rs ms -> sim rs ms (BAdd r s key).
+Proof.
+  intros rs ms r s key H. unfold sim. cbn [step mon_step].
+  destruct (R_get rs ms r H) as [(p & m & E1 & E2 & Hr)|(E1 & E2)]; rewrite E1, E2;
+    [|cbn [fst snd]; rewrite obs_eqb_refl; eauto].
+  pose proof Hr as ((Hp & Hn) & An & Am & Ah & Ab).
+  destruct (add_signature_spec p s key Hp) as (p' & code & S1 & S2 & Sm & Sh & Sk & Sn & S5 & S6 & S7).
+  rewrite S1. cbn [fst snd].
+  destruct (add_signature_code p s key p' code Hp S1) as [C1 C2].
+  assert (Hr' : rel1 p' (with_bits m (p_bits p'))).
+  { apply (with_bits_rel p m p' Hr); auto. split; [assumption|]. now rewrite Sn. }
+  assert (Hlt : forall i, N.testbit (p_bits p') i = true -> i < m_n m).
+  { intros i Hi. rewrite An, <- Sn. now apply pinv_bits_lt. }
+  destruct Hp as [h Hinv]. pose proof Hinv as (Hwf & _).
+  pose proof (known_key_spec h (p_tree p) key Hwf ltac:(lia)) as Hkn. rewrite <- An in Hkn.
+  rewrite key_sig_genuine_verify, Am.
+  destruct (known_key (m_n m) key) eqn:Ek.
+  - destruct (C2 (proj1 Hkn eq_refl)) as [V1 V0].
+    destruct (verify key (p_msg p) s) eqn:Ev; cbn [andb].
+    + pose proof (V1 eq_refl) as Hc. subst code.
+      apply verify_true in Ev. destruct Ev as (ks & -> & Hne & ->).
+      assert (Eb : N.lor (m_bits m) (mask_of ks) = p_bits p').
+      { apply same_bits_eq. intro i. rewrite lor_mask_iff, S5, Ab. split.
+        - intros [A|A]; [auto|]. right. split; [reflexivity|]. exists ks. auto.
+        - intros [A|(_ & ks' & A & B)]; [auto|]. inversion A; subst. auto. }
+      rewrite Eb, N.eqb_refl. cbn [andb]. rewrite bits_ok_model by assumption.
+      eexists. split; [reflexivity|]. apply R_set; assumption.
+    + assert (Eb : p_bits p' = p_bits p).
+      { apply same_bits_eq. intro i. rewrite S5. split; [|auto]. intros [A|(A & _)]; [exact A|].
+        destruct (V0 eq_refl); lia. }
+      replace (N.eqb code 2 || N.eqb code 3) with true
+        by (symmetry; apply orb_true_iff; destruct (V0 eq_refl) as [-> | ->]; [left|right]; reflexivity).
+      cbn [andb]. rewrite Ab, <- Eb. rewrite bits_ok_model by assumption.
+      eexists. split; [reflexivity|]. rewrite Eb. apply R_set; [assumption|]. rewrite <- Eb.
+      replace (with_bits m (p_bits p')) with (with_bits m (p_bits p')) by reflexivity. exact Hr'.
+  - assert (Hnone : index_from (t_keys (p_tree p)) key 0 = None).
+    { destruct (index_from (t_keys (p_tree p)) key 0) eqn:Ei; [|reflexivity].
+      assert (X : false = true) by (apply Hkn; discriminate). discriminate. }
+    pose proof (C1 Hnone) as Hc. subst code. cbn [andb].
+    assert (Eb : p_bits p' = p_bits p).
+    { apply same_bits_eq. intro i. rewrite S5. split; [|auto]. intros [A|(A & _)]; [exact A|discriminate]. }
+    rewrite N.eqb_refl. cbn [andb]. rewrite Ab, <- Eb. rewrite bits_ok_model by assumption.
+    eexists. split; [reflexivity|]. rewrite Eb. apply R_set; [assumption|]. rewrite <- Eb. exact Hr'.
+Qed.
